@@ -339,8 +339,14 @@ class C17(Prop):
         for g, l in sorted(groups.items()):
             sel = sorted(l, key=lambda a: (len(a[1]), a[0]))
             for a in (sel if g == "dotnet" or n > 1000 else sel[:4]):
-                for what, edit in mg.count_field_sweep(a[1], a[2]):
-                    cases.append({"asset": a[0], "kind": a[2], "mutation": "count-field", "what": [what], "edits": [edit],
+                sweep = list(mg.count_field_sweep(a[1], a[2]))
+                if g == "dex" or n > 1000 or a is sel[0]:
+                    # systematic truncations (structural boundaries, the tail, inside the dex map list); light
+                    # (boundaries only, smallest asset of the group) outside dex in the quick tier
+                    sweep += [(w, e) for w, e in mg.truncation_sweep(a[1], a[2], light=(g != "dex" and n <= 1000))]
+                for what, edit in sweep:
+                    cases.append({"asset": a[0], "kind": a[2], "mutation": "truncation" if edit["op"] == "trunc" else "count-field",
+                                  "what": [what], "edits": [edit],
                                   "process_memory": False, "layout": None, "modules": FILE_MODULES, "probes": [], "keep": 2,
                                   "keep_dict": 8, "keep_bytes": 8, "fn_args": [], "shifts": [], "user_data": {}})
                     n_sweep += 1
